@@ -56,6 +56,9 @@ class SubCheck:
     time_quick: float = 150.0  # soft wall budget per shard (s); hitting it = inconclusive rest
     time_thorough: float = 1500.0
     doc: str = ""
+    # dict keys whose values the JSON minimiser must not touch (structural fields whose mutation makes recipes invalid)
+    frozen_keys: tuple = ("dims", "names", "order", "qkind")
+    valid: Optional[Callable[[Any], bool]] = None  # extra validity predicate for minimiser candidates
 
 
 def canon(x):
@@ -184,9 +187,9 @@ def _set(x, path, val):
     return x
 
 
-def _candidates(recipe):
+def _candidates(recipe, frozen=()):
     """Yield simpler variants of a recipe, most aggressive first."""
-    items = list(_paths(recipe))
+    items = [(p, v) for p, v in _paths(recipe) if not any(k in frozen for k in p)]
     # remove chunks / single elements of lists
     for path, v in items:
         if isinstance(v, list) and len(v) > 0:
@@ -219,12 +222,18 @@ def minimise(sub: SubCheck, recipe, bucket: str, max_calls: int = 300, max_s: fl
     improved = True
     while improved and calls < max_calls and time.time() - t0 < max_s:
         improved = False
-        for cand in _candidates(recipe):
+        for cand in _candidates(recipe, sub.frozen_keys):
             if calls >= max_calls or time.time() - t0 > max_s:
                 break
             s = len(dumps(cand))
             if s >= size and dumps(cand) >= dumps(recipe):
                 continue
+            if sub.valid is not None:
+                try:
+                    if not sub.valid(cand):
+                        continue
+                except Exception:
+                    continue
             calls += 1
             try:
                 out = evaluate(sub, cand)
